@@ -3,6 +3,7 @@
 -/
 import PsVerif.Model.Gram
 import PsVerif.Model.Validation
+import PsVerif.Lemmas.GramAlg
 import Mathlib.Data.Matrix.Mul
 import Mathlib.LinearAlgebra.Matrix.NonsingularInverse
 import Mathlib.LinearAlgebra.Span.Basic
@@ -14,45 +15,73 @@ open Matrix
 taking `k` columns of the `k'`-column representation (`k ≤ k'`) is taking `k` columns. -/
 theorem takeCols_takeCols (M : RMat) (k k' : Nat) (h : k ≤ k') :
     (M.takeCols k').takeCols k = M.takeCols k := by
-  sorry
+  unfold RMat.takeCols
+  rw [Array.map_map]
+  apply Array.map_congr_left
+  intro r _
+  apply Array.ext
+  · simp [Array.size_extract]; omega
+  · intro i h1 h2
+    simp [Array.getElem_extract]
 
 /-- the retained entries are unchanged … -/
 theorem takeCols_get (M : RMat) (k i j : Nat) (hj : j < k) : (M.takeCols k).get i j = M.get i j := by
-  sorry
+  unfold RMat.get RMat.takeCols
+  by_cases hi : i < M.size
+  · simp only [Array.getD_eq_getD_getElem?, Array.getElem?_map, Array.getElem?_eq_getElem hi,
+      Option.map_some, Option.getD_some]
+    by_cases hj' : j < (M[i]).size
+    · have : j < ((M[i]).extract 0 k).size := by simp [Array.size_extract]; omega
+      rw [Array.getElem?_eq_getElem this]
+      simp [hj']
+    · have : ¬ j < ((M[i]).extract 0 k).size := by simp [Array.size_extract]; omega
+      simp [hj']
+  · simp [Array.getD_eq_getD_getElem?, hi]
 
 /-- … and there is one row per sensor, at most `k` columns -/
 theorem takeCols_shape (M : RMat) (k : Nat) :
     (M.takeCols k).size = M.size ∧ ∀ i (h : i < (M.takeCols k).size), ((M.takeCols k)[i]).size ≤ k := by
-  sorry
+  unfold RMat.takeCols
+  refine ⟨by simp, ?_⟩
+  intro i h
+  simp [Array.size_extract]
 
 /-- **C11 (bound).** Asking a fitted basis for more modes than were fitted is rejected. -/
 theorem rep_rejects_gt (nm : Nat) (z : Int) (hz : (nm : Int) < z) :
     basisRep true nm (.pyInt z) = .raises .valueError := by
-  sorry
+  unfold basisRep
+  simp only [PyArg.integral?, Bool.not_true, Bool.false_eq_true, if_false]
+  have h1 : ¬ z ≤ 0 := by omega
+  simp [h1, hz]
 
 /-- **C11 (SVD / Custom): inverse = transpose.** With orthonormal modes the transpose recovers the
 coordinates: it is a left inverse of the mode matrix. -/
 theorem orthonormal_left_inverse {n k : ℕ} (U : Matrix (Fin n) (Fin k) ℚ) (h : Uᵀ * U = 1)
     (c : Fin k → ℚ) : Uᵀ *ᵥ (U *ᵥ c) = c := by
-  sorry
+  rw [Matrix.mulVec_mulVec, h, Matrix.one_mulVec]
 
 /-- **C11 (SVD): data of rank at most `k` are reproduced exactly by `k` modes** – if every training
 example is a combination of the modes (`X = C·Uᵀ`), projecting onto the modes and back returns it. -/
 theorem rank_k_reproduced {e n k : ℕ} (X : Matrix (Fin e) (Fin n) ℚ) (U : Matrix (Fin n) (Fin k) ℚ)
     (h : Uᵀ * U = 1) (C : Matrix (Fin e) (Fin k) ℚ) (hX : X = C * Uᵀ) : X * U * Uᵀ = X := by
-  sorry
+  subst hX
+  rw [Matrix.mul_assoc C, h, Matrix.mul_one]
 
 /-- **C11 (RandomProjection): the pseudo-inverse is a left inverse** of a mode matrix with full
 column rank (Gram-inverse form `(BᵀB)⁻¹Bᵀ`, which is what `pinv` computes then). -/
 theorem gram_pinv_left_inverse {n k : ℕ} (B : Matrix (Fin n) (Fin k) ℚ) (h : IsUnit (Bᵀ * B).det) :
     ((Bᵀ * B)⁻¹ * Bᵀ) * B = 1 := by
-  sorry
+  rw [Matrix.mul_assoc, Matrix.nonsing_inv_mul _ h]
 
 /-- **C11 (RandomProjection): modes are combinations of the training examples** – every column of
 `Xᵀ·Gᵀ` lies in the span of the training examples (rows of `X`, as vectors over the sensors). -/
 theorem rp_modes_in_span {e n k : ℕ} (X : Matrix (Fin e) (Fin n) ℚ) (G : Matrix (Fin k) (Fin e) ℚ)
     (j : Fin k) : (fun i => (Xᵀ * Gᵀ) i j) ∈ Submodule.span ℚ (Set.range fun a : Fin e => X a) := by
-  sorry
+  have : (fun i => (Xᵀ * Gᵀ) i j) = ∑ a, G j a • X a := by
+    funext i
+    simp [Matrix.mul_apply, Finset.sum_apply, mul_comm]
+  rw [this]
+  exact Submodule.sum_mem _ fun a _ => Submodule.smul_mem _ _ (Submodule.subset_span ⟨a, rfl⟩)
 
 /-- Identity basis: the transpose of the first `k` training examples, exactly -/
 def identityBasis (X : RMat) (k : Nat) : RMat := RMat.ofFn X.ncols k fun i j => X.get j i
@@ -61,6 +90,7 @@ def identityBasis (X : RMat) (k : Nat) : RMat := RMat.ofFn X.ncols k fun i j => 
 sensor `i` – the first examples are reproduced exactly. -/
 theorem identity_exact (X : RMat) (k i j : Nat) (hi : i < X.ncols) (hj : j < k) :
     (identityBasis X k).get i j = X.get j i := by
-  sorry
+  unfold identityBasis
+  rw [RMat.get_ofFn, if_pos ⟨hi, hj⟩]
 
 end PsVerif
